@@ -1,5 +1,7 @@
 #!/bin/bash
-# miri/run.sh <scenario> <seed-from> <seed-to>   -> prints "<scenario> ok=<n> of <m>" and any Miri error
+# miri/run.sh <scenario> <seed-from> <seed-to>
+# exit 0: every execution clean; exit 1: Miri reported undefined behaviour (data race, use after free,
+# double free), a leak or a panic of the scenario; exit 2: Miri could not be run (infrastructure)
 cd "$(dirname "$0")" || exit 2
 SC="$1"; A="${2:-0}"; B="${3:-8}"
 export MIRIFLAGS="-Zmiri-many-seeds=$A..$B -Zmiri-tree-borrows -Zmiri-preemption-rate=0.1"
@@ -10,7 +12,9 @@ if [ -n "${VERIF_REPO:-}" ]; then
 fi
 OUT=$(timeout 1800 cargo +nightly miri run --offline "${EXTRA[@]}" -- "$SC" 2>&1)
 OK=$(echo "$OUT" | grep -c "^scenario $SC ok")
-ERR=$(echo "$OUT" | grep -E "^error|Undefined Behavior|Data race|data race|memory leaked|panicked" | head -5)
+ERR=$(echo "$OUT" | grep -E "Undefined Behavior|Data race|data race|memory leaked|panicked at|scenario .* failed" | head -5)
 echo "$SC ok=$OK of $((B-A))"
-[ -n "$ERR" ] && echo "$ERR"
-[ "$OK" -eq $((B-A)) ]
+if [ "$OK" -eq $((B-A)) ]; then exit 0; fi
+if [ -n "$ERR" ]; then echo "$ERR"; exit 1; fi
+echo "miri could not be run: $(echo "$OUT" | grep -E "^error" | head -2)"
+exit 2
